@@ -24,10 +24,10 @@ def batches(samples, cuts):
     return out
 
 
-def run_schedule(text, names, sig, sched, pastify=False, kind='ct'):
+def run_schedule(text, names, sig, sched, pastify=False, kind='ct', sd_extra=None):
     """sched: {var: cuts}. Variables are fed together: update k carries the k-th batch of every variable
     that still has one (all variables have the same number of batches in an aligned schedule)."""
-    m = drive.Mon(kind, {'text': text, 'vars': names}, pastify=pastify)
+    m = drive.Mon(kind, dict({'text': text, 'vars': names}, **(sd_extra or {})), pastify=pastify)
     if 'interleaved' in sched:
         # asynchronous sources: update k carries the next batch of some variables only; the others are omitted
         # from the call or passed with an empty batch
@@ -93,6 +93,8 @@ class C05(Prop):
                 pastify = False
                 f = lang.gen_formula(rng, lang.dense_cfg(rng, future=False))
         names = lang.variables(f) or [c.vars[0]]
+        if rng.random() < 0.12 and not pastify:
+            return self.gen_ia(rng, f, names)
         if len(names) > 1 and rng.random() < 0.35:
             case = self.gen_independent(rng, f, names, pastify)
             if rng.random() < 0.5:
@@ -114,6 +116,25 @@ class C05(Prop):
         if rng.random() < 0.35:
             case['interleaved'] = [self.gen_interleaved(rng, sig, names) for _ in range(3)]
         return case
+
+    def gen_ia(self, rng, f, names):
+        """An interface-aware semantics with a random io assignment; signals on the integer grid from 0 over a
+        small symmetric alphabet (values on thresholds and at equal distances around them); all chunkings."""
+        from rtverif.props.c06 import SEMS, PROP as C06P
+        if rng.random() < 0.5:
+            c6 = C06P.gen_eq_mirror(rng)            # an overridden equality predicate, mirrored values
+            sig = sig_from_json(c6['signals'])
+            n = len(next(iter(sig.values())))
+            scheds = [[], list(range(1, n))] + [sorted(rng.sample(range(1, n), rng.randint(1, n - 1))) for _ in range(4)]
+            return {'formula': c6['formula'], 'signals': c6['signals'], 'schedules': scheds, 'indep': None,
+                    'pastify': False, 'ia': [c6['sem'], c6['io']]}
+        sem = rng.choice(SEMS[1:])
+        io = dict((k, rng.choice(['input', 'output'])) for k in names)
+        n = rng.randint(3, 7)
+        sig = dict((k, [(Fr(i), rng.choice([-2.0, -1.0, 0.0, 1.0, 2.0])) for i in range(n)]) for k in names)
+        scheds = [[], list(range(1, n))] + [sorted(rng.sample(range(1, n), rng.randint(1, n - 1))) for _ in range(3)]
+        return {'formula': f, 'signals': sig_text(sig), 'schedules': scheds, 'indep': None, 'pastify': False,
+                'ia': [sem, io]}
 
     def gen_interleaved(self, rng, sig, names):
         per = {}
@@ -159,13 +180,22 @@ class C05(Prop):
         start = max(s[0][0] for s in sig.values())
         rel = rel_for(f)
         same = lambda a, b: refd.same(a, b, rel)
+        ia, sd_extra = case.get('ia'), None
         try:
-            exp = ref.evaluate(f, sig)
+            if ia:
+                # interface-aware semantics on both sides (online and offline); the reference overrides the
+                # insensitive predicates the way C06 specifies
+                from rtverif.props.c06 import hook_dense
+                exp = ref.evaluate(f, sig, pred_hook=hook_dense(ia[0], ia[1]))
+                sd_extra = {'semantics': ia[0], 'io': ia[1]}
+                v.info['class:interface-aware'] = 1
+            else:
+                exp = ref.evaluate(f, sig)
         except refd.Undefined:
             v.skip = 'reference undefined (domain error)'
             return v
         try:
-            off = drive.ct_offline(text, names, sig)
+            off = drive.ct_offline(text, names, sig, sd=sd_extra)
         except Exception as e:
             v.skip = 'offline comparator raised %s' % type(e).__name__
             return v
@@ -197,14 +227,14 @@ class C05(Prop):
             self.__dict__.setdefault('_scheds', set()).add((len(sig[names[0]]), repr(sorted(sched.items(), key=repr))))
             v.info['schedules'] = v.info.get('schedules', 0) + 1
             try:
-                outs = run_schedule(text, names, sig, sched, pastify)
+                outs = run_schedule(text, names, sig, sched, pastify, sd_extra=sd_extra)
             except Exception as e:
                 if all(x != x for x in exp.vs):
                     v.skip = 'raised on a completely NaN-tainted formula'
                     return v
                 v.bad('raises:' + type(e).__name__, '%s signals=%s schedule %s: update raised %s: %s' % (
                     text, case['signals'], desc, type(e).__name__, e),
-                    findings.c05_attribution(f, sig, sched, 'raises', str(e), pastify))
+                    None if ia else findings.c05_attribution(f, sig, sched, 'raises', str(e), pastify))
                 continue
             cat = [s for o in outs for s in o]
             if any((not isinstance(s, (list, tuple))) or len(s) != 2 for s in cat):
@@ -213,7 +243,7 @@ class C05(Prop):
             ts = [s[0] for s in cat]
             if any(b < a for a, b in zip(ts, ts[1:])):
                 v.bad('order', '%s signals=%s schedule %s: concatenated stamps decrease: %s' % (
-                    text, case['signals'], desc, fmt(ts, 24)), findings.c05_attribution(f, sig, sched, 'order', cat, pastify))
+                    text, case['signals'], desc, fmt(ts, 24)), None if ia else findings.c05_attribution(f, sig, sched, 'order', cat, pastify))
                 continue
             if not cat:
                 continue
@@ -233,7 +263,7 @@ class C05(Prop):
                 t, o, e = bad
                 v.bad('differs-from-offline', '%s%s signals=%s schedule %s: at t=%s online gives %r, offline %r; '
                       'outputs=%s' % (text, ' (pastified, h=%s)' % h if pastify else '', case['signals'], desc,
-                                      float(t + h), o, e, outs), findings.c05_attribution(f, sig, sched, 'value', cat, pastify))
+                                      float(t + h), o, e, outs), None if ia else findings.c05_attribution(f, sig, sched, 'value', cat, pastify))
                 continue
             covered.append((desc, lo, hi, cat))
         # pairwise cross-check needs no reference at all (only informative here because each schedule was
